@@ -282,8 +282,9 @@ def run_property(pid, tier, base_seed, workers=16, budget_override=None,
     for key, res in agg.violations:
         cls = (res['min_violation']['invariant'],
                res['min_violation']['subject'])
-        if cls in reported and len(reported) >= 1:
-            # one replay per violation class is enough; count the rest
+        if cls in reported or len(reported) >= 5:
+            # one replay per violation class (at most five classes) is
+            # enough; the rest is counted in the evidence
             continue
         reported.add(cls)
         path = write_replay(pid, res)
